@@ -20,8 +20,8 @@ Definition delta_threshold : Z := 600%Z.
 (* sort_suites: passing suites with this prefix come last *)
 Definition nonregress_prefix : list N := [46; 46; 47]%N.
 
-(* render_rate: float arithmetic, truncated *)
-Definition rate_is_integer : bool := false.
+(* render_rate: integer arithmetic *)
+Definition rate_is_integer : bool := true.
 
 (* render_suite: column pointer bounded by the number of invocations *)
 Definition walk_is_bounded : bool := true.
